@@ -260,6 +260,14 @@ def offset_rules(facts, rep):
         v = probe[0][3][0][1]
         consts = sorted(x[2] for x in walk(v) if x[0] == "const" and isinstance(x[2], int))
         good = v[0] == "un" and v[1] == "Neg" and sum(consts) == 42 and ".zip_file_comment" in tokens(v)
+        if good:
+            # as a linear form: 42 + len(comment), each with coefficient +1 (20 - 22 + len has the same constants)
+            from rules.shared_lenfield import lin as _lin, NotLinear as _NL
+            try:
+                lf = {k_: c_ for k_, c_ in _lin(v[2]).items() if c_ != 0}
+                good = lf.get(1) == 42 and len(lf) == 2 and all(c_ == 1 for k_, c_ in lf.items() if k_ != 1) and any(k_ != 1 and k_[-1] == "zip_file_comment" for k_ in lf)
+            except (_NL, IndexError, TypeError):
+                good = False
     ok &= rep.check(good, rule, "locator-probe", where(gd, gd.span), "ZIP64 locator probed at End(-(20 + 22 + comment length))",
                     "locator probe position is %s; the locator (20 bytes) precedes the end record (22 bytes + comment)" % [show(p) for p in probe])
     # every header offset is shifted by the archive offset, checked
@@ -550,6 +558,73 @@ def sentinel_rules(facts, rep):
                         "the classic record's disk numbers are compared only on paths where record_too_small() is false",
                         "classic disk-number field compared without the masked-record exemption (%s): ZIP64 archives that mask the classic disk "
                         "numbers with 0xFFFF are rejected as multi-disk" % (sorted(set(unguarded))[:2] or "comparison not found"))
+    # what the comparison does: numbers that differ => refused as multi-disk; numbers that agree => the archive is read
+    f = facts.one(r"^read::<impl read::zip_archive::ZipArchive<R>>::get_directory_counts$")
+    from engine.paths import outcome as _outcome
+    n_diff = n_same_ok = bad = 0
+    for p in _paths(f, max_paths=20000):
+        verdicts = []
+        for a_, v_ in p["decisions"]:
+            m_ = re.match(r"^(Ne|Eq)\(", a_) if a_ != "#iter" else None
+            if m_ and re.search(r"\.disk_number\b|\.disk_with_central_directory\b", a_) and v_ in (0, 1):
+                verdicts.append((m_.group(1) == "Ne") == (v_ == 1))
+        if not verdicts:
+            continue
+        oo_ = _outcome(p)
+        o_ = oo_[0]
+        if o_ == "value" and len(oo_) > 1 and isinstance(oo_[1], tuple) and any(x_[0] == "call" and x_[1].endswith("unsupported_zip_error") for x_ in walk(oo_[1])):
+            o_ = "Err"          # `return unsupported_zip_error(..)`: a helper whose every return is an error
+        if any(verdicts):
+            n_diff += 1
+            bad += o_ not in ("Err", "ErrProp")
+        elif o_ == "Ok":
+            n_same_ok += 1
+    ok &= rep.check(n_diff >= 1 and n_same_ok >= 1 and bad == 0, rule, "disk-numbers:differ=>refused,agree=>read", where(f, f.span),
+                    "disk numbers that differ end in the multi-disk refusal; when they agree the directory is located",
+                    "the disk-number comparison is not `differ => refuse, agree => go on` (%d differing paths, %d of them not refused, %d agreeing paths that succeed)" % (n_diff, bad, n_same_ok))
+    # record_too_small(): true exactly when one of the six classic fields holds its all-ones sentinel
+    rs = facts.find(r"^spec::CentralDirectoryEnd::record_too_small$")
+    if rs:
+        from engine import sym as _sym
+        g = rs[0]
+        S = _sym.Sym(g, max_paths=5000)
+        S._returns = []
+        try:
+            S.run(lambda bb, t: False)
+            rets = S._returns
+        except _sym.SymTooComplex:
+            rets = []
+        finally:
+            S._returns = None
+        WANT = {"disk_number": 0xFFFF, "disk_with_central_directory": 0xFFFF, "number_of_files_on_this_disk": 0xFFFF, "number_of_files": 0xFFFF,
+                "central_directory_size": 0xFFFFFFFF, "central_directory_offset": 0xFFFFFFFF}
+        good = bool(rets)
+        falses = 0
+        for r_ in rets:
+            tests = []
+            for d_, v_ in r_["conds"]:
+                if d_[0] == "bin" and d_[1] in ("Eq", "Ne") and d_[2][0] == "field" and d_[3][0] == "const":
+                    holds = ((v_ is None) or v_ != 0) == (d_[1] == "Eq")
+                    tests.append((d_[2][2], d_[3][2], holds))
+                else:
+                    good = False
+            val = r_["ret"]
+            if val[0] == "bin" and val[1] in ("Eq", "Ne") and val[2][0] == "field" and val[3][0] == "const":
+                # `.. || last == SENTINEL`: the value of the last test is the answer
+                tests.append((val[2][2], val[3][2], None))
+                good = good and val[1] == "Eq" and all(h_ is False for _, _, h_ in tests[:-1]) and {t_[0] for t_ in tests} == set(WANT)
+            elif val[0] == "const":
+                if val[2]:
+                    good = good and bool(tests) and tests[-1][2] is True and all(h_ is False for _, _, h_ in tests[:-1])
+                else:
+                    falses += 1
+                    good = good and {t_[0] for t_ in tests} == set(WANT) and all(h_ is False for _, _, h_ in tests)
+            else:
+                good = False
+            good = good and all(WANT.get(fld_) == c_ for fld_, c_, _ in tests)
+        ok &= rep.check(good, rule, "record_too_small=any-field-is-its-sentinel", where(g, g.span),
+                        "true iff disk_number / disk_with_central_directory / both counts == 0xFFFF or size / offset == 0xFFFFFFFF",
+                        "record_too_small() is not `some classic field holds its all-ones sentinel` -- it decides whether the classic disk numbers are trusted")
     rep.floor(rule, 2)
     return ok
 
